@@ -1,11 +1,14 @@
 // fuzz: C13.
 // Part 1 — in-process grid: every command name of the handler table x arities 0…6 x boundary
-//   argument values x prior key types, dispatched through the hook with `recover`: a panic, a
-//   missing reply or a reply that is not one well-formed RESP value is a violation; a command that
-//   does not return within 5 s is a stall.
+//
+//	argument values x prior key types, dispatched through the hook with `recover`: a panic, a
+//	missing reply or a reply that is not one well-formed RESP value is a violation; a command that
+//	does not return within 5 s is a stall.
+//
 // Part 2 — raw bytes on a real socket: malformed / truncated / absurd frames are written to an
-//   emulator while a second connection measures that PING is still answered promptly. The case being
-//   sent is written to the replay directory first, so that a process-killing panic leaves it behind.
+//
+//	emulator while a second connection measures that PING is still answered promptly. The case being
+//	sent is written to the replay directory first, so that a process-killing panic leaves it behind.
 package main
 
 import (
@@ -214,7 +217,10 @@ func main() {
 			// the other connection must still be served
 			if i%50 == 0 {
 				done := make(chan bool, 1)
-				go func() { rr, _ := g.cl2.Dispatch(toArgv([]string{"PING"})); done <- bytes.Equal(rr, []byte("+PONG\r\n")) }()
+				go func() {
+					rr, _ := g.cl2.Dispatch(toArgv([]string{"PING"}))
+					done <- bytes.Equal(rr, []byte("+PONG\r\n"))
+				}()
 				select {
 				case ok := <-done:
 					if !ok {
